@@ -169,7 +169,18 @@ def _report(rep, it, results, label, quiet):
         if not quiet:
             print(f"  [pyvc] {c.function}: undecided ({type(ex).__name__}: {str(ex)[:200]})")
         it.status = "undecided"
-        return {"status": "undecided", "results": [], "error": ex}
+        # the function could not be brought under its contract (unmodelled construct): the contract's bounded native search, which does not depend on a solver
+        # model, still gets a chance to find a real failing input
+        try:
+            confirmed = c.replay(None, None) if hasattr(c, "replay") else None
+            if confirmed and confirmed.get("confirmed"):
+                rep.violation(confirmed.get("key") or f"{rep.pid}:{c.function}:native", confirmed.get("what", ""),
+                              replay={"function": it.fnname, "vcgen_error": f"{type(ex).__name__}: {ex}"[:300], "native": confirmed.get("replay")},
+                              obligation=f"{c.function}{getattr(c, 'variant', '')}.{where}", no_input=False)
+                it.status = "failed"
+        except Exception:
+            pass
+        return {"status": it.status, "results": [], "error": ex}
     eng = it.eng
     rep.add_function(c.source, c.function + getattr(c, "variant", ""), it.node.lineno, it.sha, dropped=sorted(set(eng.dropped)))
     if getattr(it, "incomplete", None) is not None:
